@@ -118,7 +118,11 @@ func (g *hg) key() string {
 }
 
 func (g *hg) literal() Op {
-	switch g.pick("lit", 10) {
+	switch g.pick("lit", 12) {
+	case 10: // code as data: a macro call in argument position
+		return Op{Expr: "(quote (list 1 (cond false 2 true 3) (and 1 2)))", Kind: "list"}
+	case 11:
+		return Op{Expr: "(quote (do (or nil 5) (list (cond true :x) (-> 1 (+ 2)))))", Kind: "list"}
 	case 8: // an exhausted tail: empty, but still a view of its parent's backing array
 		return Op{Expr: "(rest (rest (rest [1 2 3])))", Kind: "list"}
 	case 9:
@@ -281,6 +285,10 @@ func (g *hg) step() Op {
 			}
 		case c == 25:
 			if p, ok := g.parent(seqKinds...); ok {
+				if g.pick("evalcode", 3) == 0 {
+					// evaluating a list as code must not rewrite the list (macro expansion works on the form)
+					return Op{Expr: "(try (eval " + p + ") (catch e :not-code))", Kind: "scalar", Parent: p}
+				}
 				switch g.pick("mapk", 4) {
 				case 0:
 					return Op{Expr: "(map (fn (x) x) " + p + ")", Kind: "list", Parent: p}
